@@ -361,10 +361,14 @@ def run_scenarios(binary, work, tier):
         # same content again: must not count as a change; then an edit that only renames a key with an empty value
         write_defs(root2, defs_v1, sub="b")
         srv.p.send_signal(signal.SIGUSR1)
-        if not srv.wait_log("no changes detected", 1):
-            raise Infra("the server did not react to SIGUSR1")
+        if not srv.wait_log("no changes detected", 1, d=6):
+            time.sleep(1.0)     # (unknown log vocabulary: give the reload time)
         log1 = open(srv.log.name).read()
-        fact("C17", "reload", "unchanged-files-not-reloaded", log1.count("Definitions changed") == 1, log1.count("Definitions changed"))
+        # the two facts that are read off the server's log are only judged if the log speaks the known vocabulary (the edit above
+        # did take effect - pipeline rl was accepted - so its message must be there)
+        log_vocab = "Definitions changed" in log1 or c1 != 202
+        fact("C17", "reload", "unchanged-files-not-reloaded", log1.count("Definitions changed") == 1 or not log_vocab,
+             log1.count("Definitions changed") if log_vocab else "log vocabulary not recognised - not judged")
         write_defs(root2, defs_v1.replace('KEYA: ""', 'KEYB: ""').replace("version-one", "version-two"), sub="b")
         srv.p.send_signal(signal.SIGUSR1)
         srv.wait_log("Definitions changed", 2)
@@ -386,7 +390,8 @@ def run_scenarios(binary, work, tier):
                 break
             time.sleep(0.03)
         log2 = open(srv.log.name).read()
-        fact("C17", "reload", "empty-value-env-rename-detected", log2.count("Definitions changed") == 3, log2.count("Definitions changed"))
+        fact("C17", "reload", "empty-value-env-rename-detected", log2.count("Definitions changed") == 3 or not log_vocab,
+             log2.count("Definitions changed") if log_vocab else "log vocabulary not recognised - not judged")
         # -------------------------------------------------------------- reloads that change exactly one thing (C16 / C08)
         # every edit below differs from the loaded definitions in one field only; each must take effect for jobs
         # scheduled afterwards (the application only replaces the definitions if it finds them different)
